@@ -10,6 +10,7 @@
 -/
 import AdfProofs.BitmapLemmas
 import AdfProofs.UndelMarks
+import AdfProofs.GetDel
 namespace Adf.C04
 open Adf
 
@@ -169,5 +170,14 @@ theorem C04_mark_refuses_used_block (c : Cfg) (v b : Nat) (bs : List Nat) (s : S
     run c (markWhileFree v (b :: bs)) s = (.ok 0, s) := by
   unfold markWhileFree isBlockFree
   simp [run_bind', hin, hused]
+
+/-- **`adfGetDelEnt` only looks, and what it lists is free**: for every disk content, volume state and fault schedule,
+    listing the deleted entries leaves the disk, the library's memory (hence the free map) and the log of device writes as
+    they were; and every entry of the list sits in a block of the volume — number 2 .. lastBlock - firstBlock, relative to
+    the volume — that the free map has free: the blocks `adfUndelEntry` will be asked to take back. -/
+theorem C04_deleted_entries_are_free_blocks (c : Cfg) (v : Nat) (s : St) :
+    Post AnyFault c (getDelEnt v) s (fun r s' => Untouched s s' ∧ ∀ L, r = some L → ∀ e ∈ L,
+      2 ≤ e.2.1 ∧ e.2.1 ≤ (c.vol v).lastBlock - (c.vol v).firstBlock ∧ bmIsFree (s.mem.vol v).bitmapTable e.2.1 = true) :=
+  getDelEnt_spec c v s
 
 end Adf.C04
